@@ -447,7 +447,12 @@ func genBidsCase(t *rapid.T) Case {
 	}
 	n := rapid.IntRange(0, 3).Draw(t, "nRelays")
 	for i := 0; i < n; i++ {
-		c.Relays = append(c.Relays, genRelaySpec(t))
+		r := genRelaySpec(t)
+		if i > 0 && rapid.IntRange(0, 3).Draw(t, "sameBidAsPrevious") == 0 {
+			// several relays offering the same bid is the normal case in production
+			r.Response = c.Relays[i-1].Response
+		}
+		c.Relays = append(c.Relays, r)
 	}
 	nb := rapid.IntRange(0, 2).Draw(t, "nBuilderConfigs")
 	for i := 0; i < nb; i++ {
